@@ -34,9 +34,20 @@ def run(c):
     P = c.get('periods', 252)
     ts_ = TearsheetStatistics(df.copy(), periods=P)
     t = ts_.get_results(df.copy())
-    jfull = JSONStatistics(df.copy(), alloc, periods=P, benchmark_curve=df.copy()).statistics
+    if c.get('bench'):
+        # a benchmark on its own dates (longer history / later start): its numbers must be those of that curve
+        bidx = [EPOCH + datetime.timedelta(days=d) for d, _ in c['bench']]
+        bdf = pd.DataFrame({'Equity': [e for _, e in c['bench']]}, index=bidx)
+        balloc = pd.DataFrame({'EQ:A': [1.0] * len(bidx)}, index=bidx)
+        jalone = JSONStatistics(bdf.copy(), balloc, periods=P).statistics['strategy']
+    else:
+        bdf = df
+        jalone = None
+    jfull = JSONStatistics(df.copy(), alloc, periods=P, benchmark_curve=bdf.copy()).statistics
     j = jfull['strategy']
     jb = jfull['benchmark']
+    if jalone is None:
+        jalone = j
     rets = t['returns']
     cum = t['cum_returns']
     dd, mdd, dur = perf.create_drawdowns(cum)
@@ -50,7 +61,10 @@ def run(c):
         'tear': {'sharpe': num(t['sharpe']), 'maxdd': num(t['max_drawdown']), 'maxdd_pct': num(t['max_drawdown_pct']),
                  'duration': int(t['max_drawdown_duration']), 'dd': series(t['drawdowns']), 'returns': series(t['returns']),
                  'cum': series(t['cum_returns'])},
-        'json_bench': {'sharpe': num(jb['sharpe']), 'sortino': num(jb['sortino']), 'cagr': num(jb['cagr']), 'maxdd': num(jb['max_drawdown']),
+        'json_bench_alone': {'sharpe': num(jalone['sharpe']), 'sortino': num(jalone['sortino']), 'cagr': num(jalone['cagr']),
+                             'maxdd': num(jalone['max_drawdown']), 'duration': int(jalone['max_drawdown_duration']),
+                             'ann_vol': num(jalone['annualised_vol']), 'n': len(jalone['returns'])},
+        'json_bench': {'n': len(jb['returns']), 'sharpe': num(jb['sharpe']), 'sortino': num(jb['sortino']), 'cagr': num(jb['cagr']), 'maxdd': num(jb['max_drawdown']),
                        'duration': int(jb['max_drawdown_duration']), 'ann_vol': num(jb['annualised_vol'])},
         'json': {'sharpe': num(j['sharpe']), 'sortino': num(j['sortino']), 'cagr': num(j['cagr']), 'maxdd': num(j['max_drawdown']),
                  'duration': int(j['max_drawdown_duration']), 'mean': num(j['mean_returns']), 'std': num(j['stdev_returns']),
